@@ -72,6 +72,8 @@ def int64Min : Int := -9223372036854775808
 def int64Max : Int := 9223372036854775807
 def inRange (i : Int) : Option Int := if int64Min ≤ i ∧ i ≤ int64Max then some i else none
 
+def realInRange (r : Rat) : Option Rat := if -maxFloat64 ≤ r ∧ r ≤ maxFloat64 then some r else none
+
 /-- section 5.1 <mutator> on one column value -/
 def mutateValue (v : Value) (m : Mutator) (arg : Value) : Option Value :=
   match v, arg with
@@ -84,11 +86,12 @@ def mutateValue (v : Value) (m : Mutator) (arg : Value) : Option Value :=
     | .mod => if y = 0 then none else some (.atom (.int (Int.tmod x y)))
     | _ => none
   | .atom (.real x), .atom (.real y) =>
+    -- "range error": the result is not representable (a real operation that yields an infinity)
     match m with
-    | .add => some (.atom (.real (x + y)))
-    | .sub => some (.atom (.real (x - y)))
-    | .mul => some (.atom (.real (x * y)))
-    | .div => if y = 0 then none else some (.atom (.real (x / y)))
+    | .add => (realInRange (x + y)).map (fun r => .atom (.real r))
+    | .sub => (realInRange (x - y)).map (fun r => .atom (.real r))
+    | .mul => (realInRange (x * y)).map (fun r => .atom (.real r))
+    | .div => if y = 0 then none else (realInRange (x / y)).map (fun r => .atom (.real r))
     | _ => none
   | .set s, .set a =>
     match m with
